@@ -265,10 +265,23 @@ def handleStub (t : List String) : Option String :=
     pure (boolStr ok ++ " n=" ++ toString n)
   | _ => none
 
+/-- `acl <allow nets> <deny nets> <ip>` : `AccessControlSet::denied` (`err` = the builder rejects an
+allow list without any deny network) -/
+def handleAcl (t : List String) : Option String :=
+  match t with
+  | [allow, deny, ip] => do
+    let allow ← parseList allow "," parseNet
+    let deny ← parseList deny "," parseNet
+    let ip ← parseIp ip
+    if deny.isEmpty && !allow.isEmpty then pure "err"
+    else pure (boolStr (Acs.denied ⟨allow, deny⟩ ip))
+  | _ => none
+
 def step (s : State) (toks : List String) : State × String :=
   match toks with
   | "res" :: rest => (s, (handleRes rest).getD "bad-op")
   | "conc" :: rest => (s, (handleRes rest).getD "bad-op")
+  | "acl" :: rest => (s, (handleAcl rest).getD "bad-op")
   | "stub" :: rest => (s, (handleStub rest).getD "bad-op")
   | _ => (s, "bad-op")
 
